@@ -10,7 +10,7 @@
 EXTENDS Hier, Json, IOUtils
 
 \* the inputs and the per-platform tables are computed once and kept in TLC registers (TLC does not cache definitions
-\* that read files); registers set by ASSUME are visible to every worker
+\* that read files); these shared values are not deep-normalised: run with -workers 1
 ASSUME TLCSet(1, JsonDeserialize(IOEnv.PLATS))
 Plats == TLCGet(1)
 ASSUME TLCSet(2, JsonDeserialize(IOEnv.PAIRS))
